@@ -20,6 +20,7 @@ EXPLANATION = (
 EXPLANATION_ADDED = 'R3 also requires the client-certificate trust store to be loaded from client_ca_path; (R6) a failed reload keeps the previous configuration.'
 EXPLANATION_ADDED2 = ' (R7) a reload stores exactly the freshly built configuration and every reload function publishes it.'
 EXPLANATION = EXPLANATION + " Added while testing against seeded changes: " + EXPLANATION_ADDED + EXPLANATION_ADDED2
+EXPLANATION = EXPLANATION + " Round 10: (R8) the connector of a client handshake is built in that call from make_client_config(this call's arguments), never taken from process-wide state."
 ASSUMPTIONS = ["rustls / native-tls perform chain and name validation as documented for the configured verifier"]
 NOT_DECIDED = "rustls' own certificate validation; behaviour of established connections across a swap"
 QUICK_CONFIGS = ["default"]
